@@ -45,6 +45,8 @@
               the returned owner is compared (`none` ⇔ no entry)
         transfer <new_owner_key>             on <key>: owner:=Transferred, claimed_twice:=false
         block_self                           marker (same-thread cycle, no graph lock)
+        transfer_no_target <new_owner_key>   marker (mark_as_transfer_target returned None; a `release … Panicked`
+                                             line follows)
   (3) `op <step> …`   one atomic protocol step of the model (`Op` in Model/SyncDG.lean); for hand-made
       traces and model-side exploration, never emitted by the hook:
         op claim <t> <key> <allow|deny> <block|noblock>    ans=claimed | running:t<N>:<blocked b> | cycle | cycle_inner
@@ -64,6 +66,11 @@
     ok                                                          sync line accepted
     answer-mismatch model=<a>                                   logged answer / kind / flags differ (state is
                                                                 still advanced as the model says)
+    client-precondition-violated <E> <Q> <W> <T> <D> inv=<…>    a transfer (dg transfer_lock / op transfer) whose new
+                                                                owner is the key itself or — in the Entry::Vacant arm —
+                                                                is already transitively transferred to the key
+                                                                (`transferClientOk`, the hypothesis of theorem
+                                                                `w4_forest`; NOT asserted by the Rust code); applied
     not-enabled <why>                                           a Rust assert/unwrap/expect fires in the model
                                                                 or a client precondition fails; state unchanged
     bad-op                                                      malformed line; state unchanged
@@ -253,7 +260,8 @@ def applyDg (d : DState) (op : String) (args : List String) : Out :=
         let willBlock : Bool := kd == .changed && c != nt' && dependsOn s' nt' c == some false
         let model := s!"{fmtT nt'} {fmtKind kd} {fmtB willBlock}"
         let logged := s!"{fmtT nt} {kind} {blk}"
-        some (.graph (withSt d s') (if model = logged then none else some ("MISMATCH:" ++ model.replace " " ",")) none)
+        if !transferClientOk s q n then some (.graph (withSt d s') (some "PRECOND:") none)
+        else some (.graph (withSt d s') (if model = logged then none else some ("MISMATCH:" ++ model.replace " " ",")) none)
       | none =>
         match newOwnerThread s q n o with
         | none => some (.notEnabled "transfer_lock:new-owner-not-transferred")
@@ -363,6 +371,9 @@ def applySync (d : DState) (op : String) (me k : Nat) (args : List String) : Out
       | none => some (.notEnabled "sync:transfer-without-entry")
       | some st => some (.sync (setSync d k (some { st with owner := .transferred, claimedTwice := false })) none)
     | "block_self", [] => some (.sync d none)
+    | "transfer_no_target", [n] => do
+      let _ ← keyName? n
+      if (d.st.sync k).isSome then some (.sync d none) else some (.notEnabled "sync:transfer_no_target-without-entry")
     | _, _ => none
   r.getD .bad
 
@@ -402,7 +413,10 @@ def applyOp (d : DState) (args : List String) : Out :=
       some (protocol d (.releaseSelf t k) t (some k) "release_self")
     | ["transfer", t, k, n] => do
       let t ← thread? t; let (d, k) ← key? d k; let (d, n) ← key? d n
-      some (protocol d (.transfer t k n) t (some k) "transfer")
+      match protocol d (.transfer t k n) t (some k) "transfer" with
+      | .graph d' a e =>
+        if clientOk d.st (.transfer t k n) then some (.graph d' a e) else some (.graph d' (some "PRECOND:") e)
+      | o => some o
     | ["wake", t] => do
       let t ← thread? t
       match stepA d.st (.wake t) with
@@ -454,6 +468,8 @@ def step (d : DState) (line : String) : DState × String :=
     match ans with
     | some a =>
       if a.startsWith "MISMATCH:" then (d', "answer-mismatch model=" ++ (a.drop 9).toString)
+      else if a.startsWith "PRECOND:" then
+        (d', "client-precondition-violated " ++ dig ++ " " ++ invReport d'.st)
       else
         let head := if want.all (· == dig) then "ok " else "digest-mismatch "
         (d', head ++ dig ++ " ans=" ++ a ++ (extra.map (" " ++ ·)).getD "" ++ " " ++ invReport d'.st)
